@@ -70,6 +70,7 @@ const (
 	slotScalar
 	slotPtr
 	slotCont
+	slotPoison // spare capacity behind an input buffer: any read is a read outside the input
 )
 
 type Slot struct {
@@ -211,6 +212,8 @@ func (m *Machine) checkRange(p Ptr, n int64, what string) *Obj {
 func (m *Machine) byteAt(o *Obj, off int64) *Term {
 	s := &o.slots[off]
 	switch s.kind {
+	case slotPoison:
+		m.raise(fault("read-outside-input", "read of byte %d of %q, beyond the length of the input slice", off, o.desc))
 	case slotZero:
 		return m.st.Const(8, 0)
 	case slotScalar:
@@ -255,6 +258,9 @@ func (m *Machine) readScalar(p Ptr, size int64) *Term {
 	w := uint8(size * 8)
 	allZero := true
 	for i := int64(0); i < size; i++ {
+		if o.slots[p.Off+i].kind == slotPoison {
+			m.raise(fault("read-outside-input", "read of byte %d of %q, beyond the length of the input slice", p.Off+i, o.desc))
+		}
 		if o.slots[p.Off+i].kind != slotZero {
 			allZero = false
 			break
@@ -382,6 +388,8 @@ func (m *Machine) copyBytes(dst, src Ptr, n int64) {
 	for i < n {
 		s := so.slots[src.Off+i]
 		switch s.kind {
+		case slotPoison:
+			m.raise(fault("read-outside-input", "copy from byte %d of %q, beyond the length of the input slice", src.Off+i, so.desc))
 		case slotZero:
 			i++
 		case slotScalar, slotPtr:
